@@ -830,3 +830,49 @@ Definition run_addr_format (inp : list Z) : list Z :=
   | _ => bad_input
   end.
 Definition run_addr_parse (inp : list Z) : list Z := out_addr (parse_address inp).
+
+(* ---- components of C10: threads on one port ---- *)
+Require Import Mido.Model.Conc.
+Fixpoint in_ops (n : nat) (l : list Z) : option (list op * list Z) :=
+  match n with
+  | O => Some ([], l)
+  | S k =>
+      match l with
+      | 0 :: r => match in_msg r with
+                  | Some (m, r1) => match in_ops k r1 with Some (os, r') => Some (Send m :: os, r') | None => None end
+                  | None => None
+                  end
+      | 1 :: b :: r => match in_ops k r with Some (os, r') => Some (Recv (negb (b =? 0)) :: os, r') | None => None end
+      | 2 :: r => match in_ops k r with Some (os, r') => Some (IterPending [] :: os, r') | None => None end
+      | _ => None
+      end
+  end.
+Fixpoint in_progs (n : nat) (l : list Z) : option (list (list op) * list Z) :=
+  match n with
+  | O => Some ([], l)
+  | S k => match l with
+           | c :: r => match in_ops (Z.to_nat c) r with
+                       | Some (os, r1) => match in_progs k r1 with Some (ps, r') => Some (os :: ps, r') | None => None end
+                       | None => None
+                       end
+           | [] => None
+           end
+  end.
+Definition out_result (r : result) : list Z :=
+  match r with RSent => [0] | RGot None => [1; 0] | RGot (Some m) => 1 :: 1 :: out_msg m | RList l => 2 :: out_msgs l end.
+Definition out_thread (th : thread) : list Z :=
+  (match at_ th with Raised e => [2; exn_code e] | AtStart => (match prog th with [] => [0; 0] | _ => [1; 0] end) | _ => [1; 0] end)
+  ++ zlen (results th) :: flat_map out_result (results th).
+(* [locking; kind; same_lock; nthreads; per thread: nops ops...; schedule...] *)
+Definition run_conc (inp : list Z) : list Z :=
+  match inp with
+  | lk :: kd :: sl :: nt :: r =>
+      match in_progs (Z.to_nat nt) r with
+      | Some (progs, sched) =>
+          let cf := {| c_locking := negb (lk =? 0); c_kind := if kd =? 0 then KEcho else KDevice; c_same_lock := negb (sl =? 0) |} in
+          let '(s, ts) := crun cf (map Z.to_nat sched) (cinit (fun t => nth t progs [])) in
+          flat_map (fun t => out_thread (ts t) ++ [-9]) (seq 0 (length progs)) ++ out_msgs (q s) ++ out_list (devbuf s) ++ [Z.of_nat (sleeps s)]
+      | None => bad_input
+      end
+  | _ => bad_input
+  end.
